@@ -115,6 +115,9 @@ def c02_claims(w0, w1, signer):
     by_withdrawer = z3.And(z3.Select(w0['bridge_withdrawer?'], a), z3.Select(w0['bridge_withdrawer'], a) == signer, z3.Select(w0['bridge_rollup?'], a))
     claims.append(('a balance decreases only for the signer, or for a bridge account whose current withdrawer is the signer',
                    z3.Implies(z3.And(state_inv(w0, a), z3.ULT(z3.Select(w1['balance'], k), z3.Select(w0['balance'], k))), z3.Or(a == signer, by_withdrawer))))
+    ev = z3.BitVec('any_event_key', 160 + 256)
+    claims.append(('a recorded withdrawal event is never removed or overwritten',
+                   z3.Implies(z3.Select(w0['withdrawal_event?'], ev), z3.And(z3.Select(w1['withdrawal_event?'], ev), z3.Select(w1['withdrawal_event'], ev) == z3.Select(w0['withdrawal_event'], ev)))))
     claims.append(('chain-state invariant preserved: an account with a bridge sudo / withdrawer is a bridge account (has a rollup id)',
                    z3.Implies(state_inv(w0, a), state_inv(w1, a))))
     return claims
